@@ -991,8 +991,19 @@ class Host(utils.EventEmitter):
 
     def on_transport_lost(self):
         # Called by the source when the transport has been lost.
-        if self.pending_response:
+        if self.pending_response and not self.pending_response.done():
             self.pending_response.set_exception(TransportLostError('transport lost'))
+
+        # The links are gone with the controller: take each of them through the
+        # normal disconnection path, so that every layer drops its state for it.
+        for handle in [*self.connections, *self.cis_links, *self.sco_links]:
+            self.on_hci_disconnection_complete_event(
+                hci.HCI_Disconnection_Complete_Event(
+                    status=hci.HCI_SUCCESS,
+                    connection_handle=handle,
+                    reason=hci.HCI_CONNECTION_TIMEOUT_ERROR,
+                )
+            )
 
         self.emit('flush')
 
